@@ -12,7 +12,7 @@ static uint64_t g_merges = 0;
 template <typename E, typename Cmp>
 static void one(const Shape& sh, Cmp cmp, int algo, bool stable, bool sentinels) {
     Inputs<E> in;
-    in.build(sh);
+    in.build(sh, sentinels);
     std::vector<E> out(sh.length + 3);
     for (auto& e : out) e.set(-999, CANARY_SEQ, 0);
     tlx::MultiwayMergeAlgorithm mwma = (tlx::MultiwayMergeAlgorithm)algo;
